@@ -21,6 +21,7 @@ import (
 	"github.com/go-text/typesetting/font"
 	ot "github.com/go-text/typesetting/font/opentype"
 	"github.com/go-text/typesetting/fontscan"
+	"github.com/go-text/typesetting/harfbuzz"
 	"github.com/go-text/typesetting/language"
 	"github.com/go-text/typesetting/shaping"
 	"golang.org/x/image/math/fixed"
@@ -373,6 +374,21 @@ func (e *fdEngine) Generate(seed uint64, tier string, run int) (json.RawMessage,
 			c.Font, c.Gid = name, gid
 			for _, p := range patches {
 				c.Bytes = append(c.Bytes, ByteFault{Kind: "bytes", Off: p.Off, Data: p.Data, Aim: "CFF:subr-chain"})
+			}
+			return json.Marshal(c)
+		}
+	}
+	if rk.Chance(0.008) {
+		// structure-aware plan: the index subtables of a bitmap location table (EBLC/CBLC) change
+		// format (1-5 select how the bytes that follow are read) and get boundary counts
+		name := kernel.Pick(rf, corpus.Bitmap[:4])
+		pimg := corpus.Bytes(name)
+		if hs := faultdisk.BitmapIndexSubtables(pimg); len(hs) > 0 {
+			h := kernel.Pick(rf, hs)
+			c.Font = name
+			c.Bytes = []ByteFault{{Kind: "set16", Off: h, Val: uint32(rf.Range(1, 5)), Aim: "EBLC:index-format"}}
+			if rf.Chance(0.7) {
+				c.Bytes = append(c.Bytes, ByteFault{Kind: "set32", Off: h + 8 + 4*rf.Intn(2), Val: kernel.Pick(rf, []uint32{0, 1, 0xFFFFFFFF, 0xFFFFFFFE, 0x7FFFFFFF, 0x80000000, 0x3FFFFFFF, 0x40000000}), Aim: "EBLC:index-count"})
 			}
 			return json.Marshal(c)
 		}
@@ -1260,6 +1276,18 @@ func batteryPhased(f *font.Face, seed uint64, out *kernel.Outcome, onShaping fun
 		for i := 0; i < 6; i++ {
 			texts[k] = append(texts[k], runes[r.Intn(len(runes))])
 		}
+	}
+	// once through the harfbuzz API itself, with a point size set (the AAT tracking table is only
+	// consulted then; shaping.HarfbuzzShaper leaves it at zero)
+	{
+		hf := harfbuzz.NewFont(f)
+		hf.Ptem = 11.5
+		buf := harfbuzz.NewBuffer()
+		buf.AddRunes(texts[0], 0, -1)
+		buf.GuessSegmentProperties()
+		buf.Shape(hf, nil)
+		fmt.Fprintf(&sb, " hb=%d", len(buf.Info))
+		out.Count("op.shape", 1)
 	}
 	for k, t := range texts {
 		if len(t) == 0 {
